@@ -119,6 +119,9 @@ type Obs struct {
 	ListShow bool             `json:"listshow"`
 	Facts    map[string]any   `json:"facts"`
 	Only     []string         `json:"only,omitempty"`
+	Procs    []procRec        `json:"procs"`
+	Readers  []readerRec      `json:"readers"`
+	After    []afterRec       `json:"after"`
 
 	// not serialised: for replay files and finding matching
 	hist     []Cmd
@@ -436,7 +439,7 @@ func (sp *Stepper) step(c Cmd, tag string) *Obs {
 	rk.addLog(plPost)
 	tab := rk.table()
 
-	o := &Obs{Tag: tag, Cmd: c, Exit: res.Exit, Readable: pre.Readable && post.Readable,
+	o := &Obs{Tag: tag, Cmd: c, Exit: res.Exit, Procs: []procRec{}, Readers: []readerRec{}, After: []afterRec{}, Readable: pre.Readable && post.Readable,
 		ListShow: len(pre.Mismatch) == 0 && len(post.Mismatch) == 0,
 		Pre:      rankView(pre.View, tab), Post: rankView(post.View, tab),
 		LogPre: rankLog(plPre, tab), LogPost: rankLog(plPost, tab),
